@@ -567,3 +567,56 @@ func VHarnessWalletCrashRestore()        { vhCrashRestore(0) }
 func VHarnessWalletCrashRestoreMelt()    { vhCrashRestore(1) }
 func VHarnessWalletCrashRestoreReceive() { vhCrashRestore(2) }
 func VHarnessWalletCrashRestoreMint()    { vhCrashRestore(3) }
+
+// C19 "also when the wallet being backed up was itself created by a restore": restore, then open the restored store the way
+// LoadWallet does (loadWalletMints + getActiveKeyset against a mint whose fee is 0 or not) and look at the counter it keeps.
+func VHarnessRestoreContinue() {
+	vhDerivedIds = true
+	ppk := uint(v.PickU64(v.U64("ppk"), 0, 100, 1000))
+	env := vhNewWallet(ppk, ppk, 0)
+	defer env.close()
+	seed := bip39.NewSeed(vhMnemonic, "")
+	master, err := hdkeychain.NewMaster(seed, &chaincfg.MainNetParams)
+	v.Assume(err == nil)
+	B := vhExpectedB(master, env.mint.Active, 0)
+	_, ok := env.mint.sign(cashu.BlindedMessages{{Amount: 2, Id: env.mint.Active, B_: B}})
+	v.Assume(ok)
+	var path string
+	if v.Native() {
+		path = v.TempDir()
+	} else {
+		path = "/model/restore"
+		vhRestoreTarget = &vhDB{}
+	}
+	got, rerr := Restore(path, vhMnemonic, []string{env.mint.URL})
+	v.Assert(rerr == nil, "C19 restore succeeds against an honest mint")
+	if rerr != nil {
+		return
+	}
+	v.Assert(got == 2, "C19 restore recovers the signed output")
+	db, derr := InitStorage(path)
+	v.Assume(derr == nil)
+	defer db.Close()
+	c0 := db.GetKeysetCounter(env.mint.Active)
+	v.Assert(c0 > 0, "C19 the counter written back by restore is past every signed counter")
+	// the restored wallet is opened and used (the tail of LoadWallet)
+	priv, perr := DeriveP2PK(master)
+	v.Assume(perr == nil)
+	w := &Wallet{db: db, unit: cashu.Sat, masterKey: master, privateKey: priv, defaultMint: env.mint.URL}
+	mints, lerr := w.loadWalletMints()
+	v.Assert(lerr == nil, "C19 the restored store can be opened")
+	if lerr != nil {
+		return
+	}
+	w.mints = mints
+	ks, kerr := w.getActiveKeyset(env.mint.URL)
+	v.Assert(kerr == nil, "C19 the restored wallet finds its mint's active keyset")
+	if kerr != nil {
+		return
+	}
+	v.Assert(ks.Id == env.mint.Active, "C19 the restored wallet uses the mint's active keyset")
+	v.Assert(db.GetKeysetCounter(env.mint.Active) >= c0, "C19 opening a wallet created by a restore keeps its counter past every signed counter")
+	v.Assert(ks.Counter >= c0, "C19 the keyset the restored wallet derives its next outputs from carries the restored counter")
+	v.Assert(uint(ks.InputFeePpk) == ppk, "C18 the restored wallet knows its mint's input fee")
+	v.Reach("continued")
+}
